@@ -307,6 +307,9 @@ class Accum:
                     desc = '%s %s: %s(... %s ...)' % (self.f.unit.where(n), self.f.name, cn, p)
                     if st == 'zero':
                         self.chk.instance('ACC.zeroed', desc + ': output zeroed on every path')
+                    elif st is None and rp is not None:
+                        # an output parameter this function never touches before the call: zeroing it may be the caller's contract
+                        self.chk.instance('ACC.zeroed', desc + ': output parameter passed through untouched (caller\'s obligation)', 'undecided')
                     else:
                         why = 'is never zeroed in %s before this call' % self.f.name if st is None else \
                               'was written (or not zeroed on some path, or by an earlier iteration of an enclosing loop) since it was last zeroed'
